@@ -64,10 +64,59 @@ var Alphabet = []Letter{
 // CoreK: the letters before the wrong-typed key values.
 const CoreK = 19
 
+// KeyCombos: for the three-key entities Tri (single resolvers) and MultiTri (batch
+// resolvers), every combination of {present non-null (v), present null (n), absent (a)}
+// over the key fields upc, region, sku, id: 2 x 81 representations. Names "Tri:vanv".
+var KeyCombos = keyCombos()
+
+func keyCombos() []Letter {
+	fields := []string{"upc", "region", "sku", "id"}
+	vals := []string{`"u1"`, `"r1"`, `"k1"`, `"p1"`}
+	var out []Letter
+	for _, typ := range []string{"Tri", "MultiTri"} {
+		for c := 0; c < 81; c++ {
+			name, js := typ+":", `{"__typename":"`+typ+`"`
+			for f, x := 0, c; f < 4; f, x = f+1, x/3 {
+				switch x % 3 {
+				case 0:
+					name += "v"
+					js += `,"` + fields[f] + `":` + vals[f]
+				case 1:
+					name += "n"
+					js += `,"` + fields[f] + `":null`
+				case 2:
+					name += "a"
+				}
+			}
+			out = append(out, Letter{name, js + "}", false})
+		}
+	}
+	return out
+}
+
+// Companions are paired with every key combination (both orders): a well-formed
+// representation of the same type with other key values, and one of another type.
+var Companions = map[string][]Letter{
+	"Tri":      {{"Tri:id9", `{"__typename":"Tri","id":"p9"}`, true}, {"S1", `{"__typename":"Single","id":"1"}`, true}},
+	"MultiTri": {{"MultiTri:id9", `{"__typename":"MultiTri","id":"p9"}`, true}, {"S1", `{"__typename":"Single","id":"1"}`, true}},
+}
+
 func letter(name string) (Letter, bool) {
 	for _, l := range Alphabet {
 		if l.Name == name {
 			return l, true
+		}
+	}
+	for _, l := range KeyCombos {
+		if l.Name == name {
+			return l, true
+		}
+	}
+	for _, ls := range Companions {
+		for _, l := range ls {
+			if l.Name == name {
+				return l, true
+			}
 		}
 	}
 	return Letter{}, false
